@@ -172,6 +172,32 @@ def classify(s: M.Schema, name: str, v: Dict[str, Any]) -> Tuple[bytes, List[str
     return data, sorted(cl), nontrivial
 
 
+def poison(fcp: Any, s: M.Schema, name: str, v: Dict[str, Any], k: int) -> None:
+    """Calls that are expected to FAIL, made between two checked calls: encoding a value that lacks its last field (the
+    encoder has already emitted the fields before it when it notices), encoding a wrongly typed value, decoding a
+    truncated message.  Whatever they do (raise, or not) is ignored; the point is that a failed call must not leave
+    anything behind that changes what the next, valid call produces."""
+    from fcp import serde
+
+    st_ = s.struct(name)
+    order = sorted(st_.fields, key=lambda f: f.fid)
+    try:
+        if k % 3 == 0 and len(order) >= 2:
+            bad = {f.name: v[f.name] for f in order[:-1]}
+            serde.encode(fcp, name, bad)
+        elif k % 3 == 1:
+            bad = dict(v)
+            bad[order[-1].name] = object()
+            serde.encode(fcp, name, bad)
+        else:
+            data = refcodec.encode(s, name, v)
+            if len(data) >= 1:
+                serde.decode(fcp, name, bytearray(data[: len(data) // 2]))
+    except BaseException as e:  # noqa: BLE001 - expected
+        if isinstance(e, (KeyboardInterrupt, SystemExit)):
+            raise
+
+
 def case_json(s: M.Schema, name: str, v: Any, **more: Any) -> Dict[str, Any]:
     return {
         "schema_text": printer.to_text(s),
